@@ -245,6 +245,16 @@ func r22RejectionIsFinal(c *core.Ctx) {
 	c.Check(R, "no-snap-after-error/snap.SnapPolygon", snaps[0].Pos(), !r,
 		"addPointsAndSnap is unreachable on every path where InsertPolygon's error is non-nil",
 		"addPointsAndSnap is reachable on a path where InsertPolygon returned a non-nil error: the polygon would be snapped although a vertex was rejected")
+	// no verdict without the check: every normal return of SnapPolygon lies behind the InsertPolygon call (a
+	// shortcut that answers "nothing to snap" before the index is built never looks at the extent)
+	{
+		early, at := core.Search{Fn: sp.SSA, Target: core.IsReturn, Barrier: instrIs(ci)}.Run()
+		detail := ""
+		if early && at != nil {
+			detail = " (return at " + c.P.Pos(at.Pos()) + ")"
+		}
+		c.Check(R, "no-return-before-range-check/snap.SnapPolygon", calls[0].Pos(), !early, "every return is preceded by InsertPolygon, whose error decides", "SnapPolygon can return without any vertex having been range-checked"+detail+": a polygon reaching outside the grid gets a quiet (empty) answer instead of a panic")
+	}
 	// also: snapping must be dominated by the InsertPolygon call at all
 	c.Check(R, "insert-dominates-snap/snap.SnapPolygon", snaps[0].Pos(), core.Dominates(ci, cs),
 		"InsertPolygon dominates addPointsAndSnap", "addPointsAndSnap can run without InsertPolygon having been called")
